@@ -102,6 +102,11 @@ pub trait Prop: Sync + Send {
     fn must_reach(&self, _tier: Tier) -> Vec<&'static str> {
         vec![]
     }
+    /// must every run of the search execute on a fresh OS thread? (C17: yes — hidden thread-local state
+    /// is its subject; the others run on pooled workers and only *confirm* a violation on a fresh thread)
+    fn hermetic(&self) -> bool {
+        false
+    }
     /// extra whole-batch scenarios executed once after the seeded search (e.g. cross-process comparison)
     fn post_batch(&self, _seed: u64, _total: u64, _tier: Tier) -> Vec<Scenario> {
         vec![]
